@@ -1,5 +1,5 @@
 (* C24/Model.v — executable mirror of the zbus object server tree, as the code is:
-     zbus/src/object_server/node.rs   Node::{new, get_child, get_child_mut, remove_interface, is_empty,
+     zbus/src/object_server/node.rs   Node::{new, get_child, get_child_mut, remove_interface, is_empty, has_children,
                                             remove_node, add_arc_interface, get_managed_objects,
                                             get_properties, introspect (its infoset)}
      zbus/src/object_server/mod.rs    ObjectServer::{at / add_arc_interface, remove, interface},
@@ -72,6 +72,12 @@ Definition remove_interface (k : iface) (n : node) : node * bool :=
 
 (* Node::is_empty — no key other than Peer, Introspectable, Properties, ObjectManager *)
 Definition is_empty (n : node) : bool := negb (existsb (fun e => negb (is_std (fst e))) (ifaces n)).
+
+(* Node::has_children (added by fix f5fe3276) *)
+Definition has_children (n : node) : bool := match children n with [] => false | _ :: _ => true end.
+
+(* the test of ObjectServer::remove: `node.is_empty() && !node.has_children()` *)
+Definition destroyable (n : node) : bool := is_empty n && negb (has_children n).
 
 (* Node::remove_node *)
 Definition remove_node (i : seg) (n : node) : node * bool :=
@@ -170,19 +176,20 @@ Definition at_ (root : node) (p : path) (k : iface) (id : N) : node * res oerr b
       else (root', Ok false, [])
   end.
 
-(* ObjectServer::remove::<I>(path) *)
+(* ObjectServer::remove::<I>(path), after fix f5fe3276: the node is destroyed only when it is empty
+   and has no children; the root has no parent to be removed from and is never destroyed *)
 Definition remove (root : node) (p : path) (k : iface) : node * res oerr bool * list signal :=
   match with_node root p false [] None
-          (fun n mgr => let '(n', removed) := remove_interface k n in (n', (removed, mgr, is_empty n'))) with
+          (fun n mgr => let '(n', removed) := remove_interface k n in (n', (removed, mgr, destroyable n'))) with
   | None => (root, Err InterfaceNotFound, [])          (* node.ok_or(Error::InterfaceNotFound)? *)
-  | Some (root', (removed, mgr, empty)) =>
+  | Some (root', (removed, mgr, destroy)) =>
       if negb removed then (root', Err InterfaceNotFound, [])
       else
         let sigs := match mgr with Some m => [SRemoved m p [k]] | None => [] end in
-        if empty then
+        if destroy then
           (* path.rsplit('/').filter(non-empty): last part, then the parent's parts *)
           match rev p with
-          | [] => (root', Panic PUnwrap, sigs)           (* path_parts.next().unwrap() at "/" *)
+          | [] => (root', Ok false, sigs)                (* let Some(last_part) = ... else { return Ok(false) } *)
           | last :: rparent =>
               match with_node root' (rev rparent) false [] None
                       (fun par _ => let '(par', _) := remove_node last par in (par', tt)) with
